@@ -27,6 +27,8 @@ impl Eq for Tok {}
 impl core::hash::Hash for Tok { fn hash<H: core::hash::Hasher>(&self, h: &mut H) { touch(self); } }
 impl Default for Tok { fn default() -> Tok { Tok(0) } }
 #[inline(never)] pub fn touch(t: &Tok) {}
+/// unwind point: the driver forks here (returns / panics and unwinds through the cleanup edges)
+#[inline(never)] pub fn maybe_unwind() {}
 '''
 
 
